@@ -535,6 +535,34 @@ def sink_calls(ctx, case, label, dump, obj, expect, kw, counter):
     r, fd_ok, fdinfo = outcome(dump, obj, s, **kw)
     fdcheck('StringIO', fd_ok, fdinfo, r)
     judge('StringIO', r, s.getvalue())
+    # open text streams that are no io.IOBase: tempfile's wrapper, a codecs
+    # writer, any object with write()
+    if _n_calls[0] % 2 == 0:
+        import codecs
+        import tempfile
+
+        class Duck:
+            def __init__(self):
+                self.parts = []
+
+            def write(self, text):
+                self.parts.append(text)
+        d = Duck()
+        r, fd_ok, fdinfo = outcome(dump, obj, d, **kw)
+        judge('duck-typed-writer', r, ''.join(d.parts))
+        path = workfile()
+        f = codecs.open(path, 'w', 'utf-8')
+        try:
+            r, fd_ok, fdinfo = outcome(dump, obj, f, **kw)
+        finally:
+            f.close()
+        judge('codecs-writer', r, readback(path))
+        with tempfile.NamedTemporaryFile(
+                'w+', encoding='utf-8', newline='',
+                dir=os.path.dirname(path)) as f:
+            r, fd_ok, fdinfo = outcome(dump, obj, f, **kw)
+            f.flush()
+            judge('NamedTemporaryFile', r, readback(f.name))
     # a text stream that already holds something: a header line, or an
     # earlier dump - what is appended must be exactly the dumps text
     head = '# written before\n'
@@ -711,6 +739,18 @@ def shard(ctx):
                          'newline')
         if ctx.shard == 0:
             run_locale_config(ctx)
+        # documents longer than PyYAML's read buffers whose only defect (a
+        # character YAML does not allow) sits far behind their start
+        for i, (pad, bad) in enumerate([(9000, '\x01'), (20000, '\x07'),
+                                        (9000, '\ufffe'), (5000, '\x01'),
+                                        (8190, '\x0b'), (40000, '\x1f')]):
+            if ctx.mine(i):
+                text = 'a: 1\n' + '# padding line\n' * (pad // 15) + \
+                    'x: "%s"\nz: 2\n' % bad
+                for dt in ('any', ['dict', 'str', 'any']):
+                    ctx.count('long_documents')
+                    run_load(ctx, {'classes': [], 'doc_type': dt}, text,
+                             'long-late-bad-character')
         # documents given as bytes that are no (or unusual) Unicode text
         odd = [b'x: \xff\xfe', b'x: caf\xe9\n', b'\xff', b'\xfe\xff\x00',
                b'k: v\n\x80', b'\xc3', b'a: "\xed\xa0\x80"\n',
